@@ -1447,6 +1447,15 @@ def r2_4(rep):
                         okx = okx and len(pos) == 1 and len(neg) == 1 and "/ 8" in pos[0] and "latest_offset" in neg[0]
             rep.check(okx, "field:explicit-offset-padding", "with a known field offset the padding is offset/8 - latest_offset, used only when offset/8 > latest_offset",
                       b.loc(pads[0]))
+        # a gap is materialised as an explicit padding field whenever it is at least as large as the FIELD's own alignment
+        # (a smaller gap is what repr(C) inserts by itself); comparing with anything larger drops needed padding
+        geqs = [n for n in b.walk() if n["k"] == "Binary" and n["op"] in (">=", "<=") and
+                ("padding_bytes" in b.canon(n["l"], 2) + b.canon(n["r"], 2)) and "Layout::align" in b.canon(n, 8)]
+        if rep.check(len(geqs) == 1, "field:need-padding-test", "one comparison of the gap with an alignment (found %d)" % len(geqs), b.loc(b.root)):
+            g = geqs[0]
+            gap, al_ = (g["l"], g["r"]) if g["op"] == ">=" else (g["r"], g["l"])
+            rep.check(strip(gap).get("name") == "padding_bytes" and b.canon(al_, 6) == "param:field_layout.ir::layout::Layout::align", "field:need-padding-vs-own-align",
+                      "padding is needed when gap >= the field's own alignment (found `%s >= %s`)" % (b.canon(gap, 3)[:40], b.canon(al_, 6)[:80]), b.loc(g))
     # pad_struct / add_tail_padding
     for name, szname in (("pad_struct", "layout"), ("add_tail_padding", "comp_layout")):
         b = ms.get(name)
